@@ -55,6 +55,26 @@ reg("C18",
     "trailing_comment_split needs the comment-free twin to pass.",
     "DESIGN.md §5 C18")
 
+reg("C19",
+    "differential execution of generated code: matrices of the tangent-linear "
+    "kernel and of the adjoint PSyAD generates are tabulated by running both "
+    "under gfortran -fcheck=all on every unit vector and compared "
+    "(B == transpose(A)); PSyAD's own generated harness is run as a second "
+    "oracle",
+    "Generated linear TL kernels (scalar and 1-D array active variables, "
+    "passive coefficients, loops with unit/non-unit/negative steps, offsets, "
+    "zero-trip sizes, nested loops, IF blocks on passive data, increments "
+    "with negative coefficients) go through the real generate_adjoint_str; "
+    "for n in {0..6, 20} and two passive settings the full matrices are "
+    "compared exactly, with a real(16) re-check before a mismatch at 1e-9 is "
+    "reported; passive variables must be unchanged; the harness must print "
+    "PASSED. Sampled kernels; held on what was observed.",
+    "1-D arrays only, no array-section syntax, passive variables written "
+    "only at routine start. A failure is attributed to a known mechanism "
+    "only if every failing size has that hazard live and the hazard-free "
+    "twin of the same kernel passes both oracles.",
+    "DESIGN.md §5 C19")
+
 reg("C14",
     "invariant monitor at the public-operation boundary over generated and "
     "enumerated edit histories on the real PSyIR classes",
